@@ -1165,6 +1165,15 @@ func (i *recursivePropIter) next() (propIterItem, iterNextFunc) {
 		}
 		name := item.name.string()
 		if _, exists := i.seen[name]; !exists {
+			if item.value == nil && item.enumerable == _ENUM_UNKNOWN {
+				// the key comes from an object that does not supply the property while iterating (a Proxy):
+				// ask the object in the prototype chain that owns the key, not the object the enumeration started from
+				prop := i.o.getOwnPropStr(name)
+				if prop == nil {
+					continue
+				}
+				item.value = prop
+			}
 			i.seen[name] = struct{}{}
 			return item, i.next
 		}
